@@ -422,8 +422,12 @@ func Check(h *History, rec *Recording, note func(name, text string)) *Report {
 
 	// ---- index what was sent
 	sentByID := map[string]*Msg{}
-	expDiag := map[string]*Msg{} // uri#version
-	var expOrder []string
+	// Version numbers are the client's and may repeat (numbering restarts after a
+	// reopen, a change may keep the number): the k-th publication for (uri, version)
+	// belongs to the k-th open/change with that key, in request order.
+	var expMsgs []*Msg             // open/change messages in request order
+	expQueue := map[string][]int{} // uri#version -> indices into expMsgs not yet published
+	keyKnown := map[string]bool{}
 	docsOfURI := map[string][]*Doc{}
 	var maxSeq int64
 	for _, ev := range rec.Events {
@@ -444,8 +448,12 @@ func Check(h *History, rec *Recording, note func(name, text string)) *Report {
 		}
 		if m.Kind == "open" || m.Kind == "change" {
 			k := fmt.Sprintf("%s#%d", m.URI, m.Version)
-			expDiag[k] = m
-			expOrder = append(expOrder, k)
+			if keyKnown[k] {
+				rep.count("version_numbers_reused", 1)
+			}
+			keyKnown[k] = true
+			expQueue[k] = append(expQueue[k], len(expMsgs))
+			expMsgs = append(expMsgs, m)
 			docsOfURI[m.URI] = append(docsOfURI[m.URI], m.Docs...)
 		}
 	}
@@ -500,11 +508,7 @@ func Check(h *History, rec *Recording, note func(name, text string)) *Report {
 			}
 		}
 	}
-	pubSeq := map[string]int64{}
-	expIndex := map[string]int{}
-	for i, k := range expOrder {
-		expIndex[k] = i
-	}
+	pubSeq := map[*Msg]int64{}
 	lastIdx := -1
 	expCache := map[*Doc][]ExpDiag{}
 	expected := func(uri string, d *Doc) []ExpDiag {
@@ -519,20 +523,26 @@ func Check(h *History, rec *Recording, note func(name, text string)) *Report {
 		return e
 	}
 	for _, p := range pubs {
-		m := expDiag[p.key]
-		if m == nil {
+		if !keyKnown[p.key] {
 			rep.find("diagnostics/unexpected-publication", "publishDiagnostics for %s which was never opened/changed with that version", p.key)
 			continue
 		}
-		if _, dup := pubSeq[p.key]; dup {
-			rep.find("diagnostics/duplicate-publication", "second publishDiagnostics for %s", p.key)
+		if len(expQueue[p.key]) == 0 {
+			rep.find("diagnostics/duplicate-publication", "more publishDiagnostics for %s than open/change messages with that version", p.key)
 			continue
 		}
-		pubSeq[p.key] = p.seq
-		if idx := expIndex[p.key]; idx < lastIdx {
-			rep.find("diagnostics/out-of-request-order", "publishDiagnostics for %s (request #%d) arrived after the one for %s (request #%d)", p.key, idx, expOrder[lastIdx], lastIdx)
+		idx := expQueue[p.key][0]
+		expQueue[p.key] = expQueue[p.key][1:]
+		m := expMsgs[idx]
+		pubSeq[m] = p.seq
+		if idx < lastIdx {
+			rep.find("diagnostics/out-of-request-order", "publishDiagnostics for %s (open/change #%d, %d bytes) arrived after the one for %s#%d (open/change #%d)",
+				p.key, idx, msgBytes(m), expMsgs[lastIdx].URI, expMsgs[lastIdx].Version, lastIdx)
 		} else {
 			lastIdx = idx
+		}
+		if msgBytes(m) >= 65536 {
+			rep.count("publications_for_documents_64k_and_more", 1)
 		}
 		rep.count("publications_checked", 1)
 		if len(m.Docs) == 0 {
@@ -617,25 +627,25 @@ func Check(h *History, rec *Recording, note func(name, text string)) *Report {
 		rep.Distinct = append(rep.Distinct, "diag:"+fmt.Sprint(hashStr(want.Text)))
 	}
 	if !died {
-		for _, k := range expOrder {
-			if _, ok := pubSeq[k]; !ok && !expDiag[k].Optional {
-				rep.find("diagnostics/missing-publication", "no publishDiagnostics for %s although the handler chain was drained (a later request was answered)", k)
+		for _, m := range expMsgs {
+			if _, ok := pubSeq[m]; !ok && !m.Optional {
+				rep.find("diagnostics/missing-publication", "no publishDiagnostics for %s#%d although the handler chain was drained (a later request was answered)", m.URI, m.Version)
 			}
 		}
 	}
 
 	// ---- (3)+(5) replies
 	stampsOf := map[string]map[int]int{} // uri -> stamp -> canonical stamp (multi-change aliases)
-	for _, k := range expOrder {
-		m := expDiag[k]
+	for _, m := range expMsgs {
 		if stampsOf[m.URI] == nil {
 			stampsOf[m.URI] = map[int]int{}
 		}
 		for _, d := range m.Docs {
-			stampsOf[m.URI][d.Stamp] = m.Version
+			stampsOf[m.URI][d.Stamp] = m.Docs[len(m.Docs)-1].Stamp
 		}
 	}
 	readOut := map[*Msg]regOut{}
+	defSeen := map[string]int{}
 	for _, ev := range rec.Events {
 		if ev.Dir != 'C' || ev.Msg.ID == nil {
 			continue
@@ -757,6 +767,13 @@ func Check(h *History, rec *Recording, note func(name, text string)) *Report {
 			continue
 		}
 		rep.count("definition_locations_checked", int64(len(locs)))
+		// the same (uri, version number) was used before for another content, and a
+		// definition was answered there (what a per-version cache would have kept)
+		vk := fmt.Sprintf("%s#%d", m.URI, m.Version)
+		if st, ok := defSeen[vk]; ok && st != primary.Stamp {
+			rep.count("definition_after_version_reuse", 1)
+		}
+		defSeen[vk] = primary.Stamp
 		if occ != nil && !isASCII(primary.Text[primary.LS[lineIndex(primary, occ.Off)]:occ.Off]) {
 			rep.count("definition_cursor_after_nonascii", 1)
 		}
@@ -859,11 +876,11 @@ func Check(h *History, rec *Recording, note func(name, text string)) *Report {
 				u.skip = true // not a defined register operation
 				continue
 			}
-			ret, ok := pubSeq[fmt.Sprintf("%s#%d", m.URI, m.Version)]
+			ret, ok := pubSeq[m]
 			if !ok {
 				ret = infinity
 			}
-			u.ops = append(u.ops, porcupine.Operation{ClientId: 0, Input: regIn{write: true, stamp: m.Version}, Call: m.Seq, Output: regOut{}, Return: ret})
+			u.ops = append(u.ops, porcupine.Operation{ClientId: 0, Input: regIn{write: true, stamp: m.Docs[len(m.Docs)-1].Stamp}, Call: m.Seq, Output: regOut{}, Return: ret})
 		case "close":
 			u := get(m.URI)
 			u.ops = append(u.ops, porcupine.Operation{ClientId: 0, Input: regIn{write: true, stamp: 0}, Call: m.Seq, Output: regOut{}, Return: ackAfter(m.Seq)})
@@ -908,6 +925,13 @@ func Check(h *History, rec *Recording, note func(name, text string)) *Report {
 		}
 	}
 	return rep
+}
+
+func msgBytes(m *Msg) int {
+	if len(m.Docs) == 0 {
+		return 0
+	}
+	return len(m.Docs[len(m.Docs)-1].Text)
 }
 
 func lineIndex(d *Doc, off int) int {
